@@ -888,7 +888,11 @@ impl<'de, 'a, R: Reader<'de>> de::Deserializer<'de> for &'a mut Deserializer<R> 
                     None => Err(self.parser.error(ErrorCode::EofWhileParsing)),
                 }
             }
-            Some(b'"') => visitor.visit_enum(UnitVariantAccess::new(self)),
+            Some(b'"') => {
+                let ret = visitor.visit_enum(UnitVariantAccess::new(self));
+                // an error raised by the visitor (e.g. a payload variant named by a bare string) has no position yet
+                ret.map_err(|err| self.parser.fix_position(err))
+            }
             Some(_) => Err(self.parser.error(ErrorCode::InvalidJsonValue)),
             None => Err(self.parser.error(ErrorCode::EofWhileParsing)),
         }
